@@ -21,6 +21,15 @@ HPROFILES = {
             'keep_only': 1},
     'C18': {'requires': 3, 'bypass': 5, 'keep_only': 3, 'keep_between': 4,
             'job': 2, 'seq': 1, 'query': 1, 'sched': 1},
+    # histories that end with run(): queries, edits and surgery first
+    'C01': {'requires': 4, 'requires_remove': 1, 'query': 4, 'job': 3,
+            'sched': 1, 'add': 2, 'update': 1, 'remove': 3, 'bypass': 3,
+            'keep_only': 1, 'keep_between': 1, 'sanitize': 3, 'seq': 2,
+            'append': 1, 'cycles': 2},
+    'C02': {'requires': 4, 'requires_remove': 1, 'query': 4, 'job': 3,
+            'sched': 1, 'add': 2, 'update': 1, 'remove': 3, 'bypass': 3,
+            'keep_only': 1, 'keep_between': 1, 'sanitize': 3, 'seq': 2,
+            'append': 1, 'cycles': 2},
     'C19': {'requires': 4, 'requires_remove': 3, 'seq': 5, 'append': 5,
             'seq_requires': 2, 'job': 3, 'sched': 2, 'add': 2, 'update': 2,
             'remove': 1, 'dangling': 1},
@@ -478,7 +487,12 @@ class HGen:
         }
         for _ in range(rng.choice((4, 6, 8, 10, 14, 20))):
             table[rng.choices(kinds, weights)[0]]()
-        if self.prop == 'C19' and rng.random() < 0.5:
+        if (self.prop == 'C19' and rng.random() < 0.5) or \
+                self.prop in ('C01', 'C02'):
+            if self.prop != 'C19' and rng.random() < 0.7:
+                # make the tree runnable: drop dangling requirements
+                self.emit({"op": "sanitize", "sched": top, "twice": False})
+                self.m.sanitize(top)
             self.emit({"op": "run", "sched": top})
         return self.ops
 
